@@ -90,6 +90,16 @@ def medium_text(r, ver):
 
 def rand_string(r, ver):
     k = r.random()
+    if k < 0.012:
+        # a carriage return (open finding F-cr-altered: written raw, read back as LF)
+        s = short_text(r, ver) or "a"
+        p = r.randrange(len(s) + 1)
+        return s[:p] + r.choice(["\r", "\r\n", "\r"]) + s[p:]
+    if k < 0.02 and ver != 1:
+        # a character CIF 2.0 does not allow (open finding F-disallowed-char-written)
+        s = short_text(r, ver).replace("\r", "") or "a"
+        p = r.randrange(len(s) + 1)
+        return s[:p] + chr(r.choice([1, 8, 11, 12, 0x1f, 0x7f, 0x80, 0x9f, 0xfdd0, 0xfdef])) + s[p:]
     if k < 0.5:
         return short_text(r, ver)
     if k < 0.7:
@@ -143,12 +153,60 @@ def table_at_column(r, ver):
     return name, toks + ["}"]
 
 
+KEY_LENGTHS = [2036, 2037, 2038, 2039, 2040, 2041, 2042, 2043, 2044, 2045, 2046, 2047, 2048, 2049]
+SQ, DQ = "'", '"'
+
+
+def boundary_key(r):
+    """a table key on the boundary of the predicate `keyPresented` (Lemmas/WriterKeys.lean; C02_total_iff): one line of
+    LINE-12 ... LINE+1 units holding none / one / both kinds of quote characters (so that it is quoted with ', with ", or triple
+    quoted), possibly ending in a quote or holding a triple delimiter; or several lines with a first / last line of LINE-6 ... LINE-2
+    units (the opening delimiter filling the line, the closing delimiter leaving / not leaving a column for the colon)"""
+    k = r.random()
+    if k < 0.6:
+        n = r.choice(KEY_LENGTHS)
+        head = r.choice(["", "", SQ, DQ, SQ + DQ, DQ + SQ, "a" + SQ + "b" + DQ + "c", SQ * 2, DQ * 2, SQ * 3, DQ * 3, SQ * 3 + DQ * 3])
+        tail = r.choice(["", "", "", SQ, DQ, SQ * 2, " "])
+        fill = r.choice(["k", "k", "k", " ", ";", "\U0001f600"])
+        room = max(0, n - len(head) - len(tail))
+        if fill == "\U0001f600":
+            body = fill * (room // 2) + "k" * (room % 2)
+        else:
+            body = fill * room
+        return head + body + tail
+    first = r.choice([0, 1, 7, 2042, 2043, 2044, 2045, 2046, 2049])
+    last = r.choice([0, 1, 7, 2042, 2043, 2044, 2045, 2046, 2049])
+    mid = r.choice([[], [], [""], ["m" * r.choice([1, 2047, 2048, 2049])]])
+    q = r.choice(["", "", SQ, DQ, SQ + DQ, SQ * 3, DQ * 3])
+    lines = [q + "f" * max(0, first - len(q))] + mid + ["l" * last + r.choice(["", "", "", SQ, DQ])]
+    return "\n".join(lines)
+
+
+def key_boundary_table(r):
+    """a table with a boundary key at a start column chosen through the length of the data name (so that the key starts a
+    line, or ends in the last columns of the current one)"""
+    name = "_" + "n" * (r.choice([2, 2, 10, 1000, 2030, 2036, 2040, 2043, 2046, 2047]) - 1)
+    toks = ["{"]
+    seen = set()
+    for _ in range(r.choice([1, 1, 1, 2])):
+        key = boundary_key(r) if r.random() < 0.8 else r.choice(["k", "", "a" + SQ + "b" + DQ + "c"])
+        if key in seen:
+            continue
+        seen.add(key)
+        toks += ["K:" + hexs(key)] + r.choice([["U"], ["N"], ["M0:" + hexs("12")], ["C1:" + hexs("v w")], ["C0:" + hexs("v")], ["{", "}"], ["[", "U", "]"]])
+    return name, toks + ["}"]
+
+
 def generate_for(ver, family, seed, tier):
     r = rng(seed, family)
     n = 1200 if tier == "quick" else 60000
     for _ in range(n):
         if ver != 1 and r.random() < 0.05:
             name, toks = table_at_column(r, ver)
+            yield "writeval %d %s %s" % (ver, hexs(name), " ".join(toks))
+            continue
+        if ver != 1 and r.random() < 0.06:
+            name, toks = key_boundary_table(r)
             yield "writeval %d %s %s" % (ver, hexs(name), " ".join(toks))
             continue
         yield "writeval %d %s %s" % (ver, hexs(rand_name(r)), " ".join(rand_value_tokens(r, ver)))
